@@ -55,7 +55,7 @@ func (n *netState) connected(a, b int, now time.Duration) bool {
 // fault schedule has stopped for it (C05 plans only).
 func (w *World) syncPhaseFor(nd *Node) bool {
 	p := w.plan
-	if p.Sync == nil || w.now() < time.Duration(p.HealAtMs)*time.Millisecond || nd.twin {
+	if p.Sync == nil || !w.healed || nd.twin {
 		return false
 	}
 	for _, id := range p.Sync {
